@@ -416,4 +416,12 @@ func init() {
 		Old:    "\t\t\tfmt.Printf(\"> %s\\n\", f.label.String())\n\t\t}\n\n\t\tprocess.finishedRule(PRINT, \"[print]\", \"\", re)\n\n\t\tprocess.Body = f.continuation_e\n\t\tprocess.transitionLoop(re)",
 		New:    "\t\t\tfmt.Sscanf(f.label.String(), \"%d\", &re.Delay)\n\t\t}\n\n\t\tprocess.finishedRule(PRINT, \"[print]\", \"\", re)\n\n\t\tprocess.Body = f.continuation_e\n\t\tprocess.transitionLoop(re)",
 		Expect: "address-escapes"})
+	addFixture(Fixture{Name: "unfold-stops-at-an-alias", Rule: "R-UNFOLD-COMPLETE", File: "types/types.go",
+		Old:    "\t\t\treturn Unfold(unfoldedSessionType.Type, labelledTypesEnv)",
+		New:    "\t\t\treturn unfoldedSessionType.Type",
+		Expect: "types.Unfold | return"})
+	addFixture(Fixture{Name: "contractivity-loop-stops-early", Rule: "R-CONTRACTIVE-GATE", File: "types/types_sanity_checks.go",
+		Old:    "\t\tok := j.SessionType.isContractive(labelledTypesEnv, make(map[string]bool))",
+		New:    "\t\tif _, isName := j.SessionType.(*LabelType); !isName {\n\t\t\tbreak\n\t\t}\n\t\tok := j.SessionType.isContractive(labelledTypesEnv, make(map[string]bool))",
+		Expect: "contractivity-checked"})
 }
